@@ -94,6 +94,9 @@ def run_pair_check(pid, tier, mcs, max_progs, mult=1, assumptions=()):
                 rr = core.validate(mod, cfg, w3 if side == "w" else r3, rname, max_rej=50)
                 rr["rejections"] = [x for x in rr["rejections"] if x["tid"].rsplit("/", 1)[0] == base]
                 if not rr["rejections"]:
+                    if rj["event"].get("e") == "HANG":
+                        log("[%s] watchdog expiry of %s did not reproduce: ignored (driver starved of CPU)" % (pid, rj["tid"]))
+                        continue
                     raise core.Infra("rejection of %s did not reproduce" % rj["tid"])
                 prog = dict(id=base, batch=seq)
             rj2 = rr["rejections"][0]
